@@ -21,7 +21,6 @@ import (
 	"verif/props"
 
 	"github.com/anishathalye/porcupine"
-	"github.com/goose-lang/goose/machine/disk"
 )
 
 func init() {
@@ -61,6 +60,7 @@ const dirtyWord = 0xDDDDDDDDDDDDDDDD // ReadTo buffers are pre-filled with it
 type c10params struct {
 	Hist       int      `json:"hist"`
 	Impl       string   `json:"impl"` // mem | file
+	Pkg        string   `json:"pkg"`  // disk | async_disk (the package whose constructor made the disk)
 	Clients    int      `json:"clients"`
 	Size       uint64   `json:"size"`
 	Hot        []uint64 `json:"hot"`
@@ -79,6 +79,10 @@ func c10gen(seed int64, idx int) (c10params, [][]c10op) {
 	p := c10params{Hist: idx, Impl: "mem"}
 	if idx%2 == 1 {
 		p.Impl = "file"
+	}
+	p.Pkg = "disk"
+	if (idx/2)%2 == 1 {
+		p.Pkg = "async_disk"
 	}
 	p.Clients = 2 + rng.Intn(15)
 	p.Size = uint64(4 + rng.Intn(13))
@@ -135,6 +139,7 @@ type c10event struct {
 	V    uint64   `json:"v"`              // stamp written, stamp of word 0 read, or Size result
 	Torn []uint64 `json:"torn,omitempty"` // distinct words of a non-uniform block (first 6)
 	P    string   `json:"p,omitempty"`    // panic message
+	Q    bool     `json:"q,omitempty"`    // read by the main goroutine after all clients joined
 }
 
 type c10record struct {
@@ -200,19 +205,12 @@ func c10Client(args []string) int {
 	for k := 0; k < count; k++ {
 		idx := first + k*stride
 		p, ops := c10gen(seed, idx)
-		fmt.Fprintf(os.Stderr, "history %d impl=%s clients=%d\n", idx, p.Impl, p.Clients)
-		var d disk.Disk
+		fmt.Fprintf(os.Stderr, "history %d impl=%s pkg=%s clients=%d\n", idx, p.Impl, p.Pkg, p.Clients)
 		path := filepath.Join(dir, fmt.Sprintf("h%d.img", idx))
-		if p.Impl == "mem" {
-			d = disk.NewMemDisk(p.Size)
-		} else {
-			os.Remove(path)
-			fd, err := disk.NewFileDisk(path, p.Size)
-			if err != nil {
-				fmt.Fprintln(os.Stderr, "harness: NewFileDisk:", err)
-				return 2
-			}
-			d = fd
+		d, err := openC10Disk(p.Pkg, p.Impl, path, p.Size)
+		if err != nil {
+			fmt.Fprintln(os.Stderr, "harness: open disk:", err)
+			return 2
 		}
 		evs := make([][]c10event, p.Clients)
 		start := time.Now()
@@ -279,6 +277,37 @@ func c10Client(args []string) int {
 			}(c)
 		}
 		wg.Wait()
+		// quiescent point: every client has joined. The main goroutine reads every block of
+		// the disk (client id = number of clients); these reads overlap nothing.
+		var final []c10event
+		rbuf := make([]byte, bs)
+		for a := uint64(0); a < p.Size; a++ {
+			ev := c10event{C: p.Clients, K: "r", A: a, Q: true}
+			func() {
+				defer func() {
+					if e := recover(); e != nil {
+						ev.T1 = int64(time.Since(start))
+						ev.P = fmt.Sprint(e)
+					}
+				}()
+				if a%2 == 0 {
+					ev.T0 = int64(time.Since(start))
+					b := d.Read(a)
+					ev.T1 = int64(time.Since(start))
+					decodeBlock(b, &ev)
+				} else {
+					ev.K = "t"
+					for i := 0; i < bs; i += 8 {
+						binary.LittleEndian.PutUint64(rbuf[i:], dirtyWord)
+					}
+					ev.T0 = int64(time.Since(start))
+					d.ReadTo(a, rbuf)
+					ev.T1 = int64(time.Since(start))
+					decodeBlock(rbuf, &ev)
+				}
+			}()
+			final = append(final, ev)
+		}
 		d.Close()
 		if p.Impl == "file" {
 			os.Remove(path)
@@ -287,6 +316,7 @@ func c10Client(args []string) int {
 		for _, e := range evs {
 			rec.Events = append(rec.Events, e...)
 		}
+		rec.Events = append(rec.Events, final...)
 		b, _ := json.Marshal(rec)
 		wr.Write(b)
 		wr.WriteByte('\n')
@@ -326,6 +356,9 @@ func overlaps(a, b *c10event) bool { return a.T0 <= b.T1 && b.T0 <= a.T1 }
 func describeEvent(e *c10event) string {
 	name := map[string]string{"r": "Read", "t": "ReadTo", "w": "Write", "s": "Size"}[e.K]
 	s := fmt.Sprintf("[%d,%d] client %d %s(%d)", e.T0, e.T1, e.C, name, e.A)
+	if e.Q {
+		s = fmt.Sprintf("[%d,%d] main goroutine after the join %s(%d)", e.T0, e.T1, name, e.A)
+	}
 	switch {
 	case e.P != "":
 		s += " PANIC " + e.P
@@ -402,17 +435,22 @@ func (ck *c10checker) sample(impl string, hist int, v interface{}) {
 	if ck.sampled == nil {
 		ck.sampled, ck.sampledH = map[string]int{}, map[int]bool{}
 	}
-	if ck.sampled[impl] >= 4 || ck.sampledH[hist] {
+	limit := 4
+	if strings.HasSuffix(impl, "-shaped") {
+		limit = 2
+		hist += 1 << 30 // shaped histories are numbered separately
+	}
+	if ck.sampled[impl] >= limit || ck.sampledH[hist] {
 		return
 	}
 	ck.sampled[impl]++
 	ck.sampledH[hist] = true
-	ck.r.Sample(8, v)
+	ck.r.Sample(12, v)
 }
 
 func (ck *c10checker) replayDetail(rec *c10record, addr uint64, evs []*c10event, extra map[string]interface{}) map[string]interface{} {
 	d := map[string]interface{}{
-		"seed": ck.r.Seed, "history_index": rec.Hist, "impl": rec.Impl, "clients": rec.Clients, "disk_size": rec.Size,
+		"seed": ck.r.Seed, "history_index": rec.Hist, "impl": rec.Impl, "package": rec.Pkg, "clients": rec.Clients, "disk_size": rec.Size,
 		"hot_addresses": rec.Hot, "gomaxprocs": rec.GoMaxProcs, "race_build": rec.Race, "address": addr,
 		"events_on_address_by_call_time": describePartition(evs, 400),
 		"replay":                         fmt.Sprintf("vcheck child c10-client %d %d 1 1 %d <dir> <out>  (the operation lists are a function of seed and history index; the schedule is not)", ck.r.Seed, rec.Hist, b2i(rec.Race)),
@@ -436,6 +474,7 @@ func (ck *c10checker) checkRecord(rec *c10record) {
 	impl := rec.Impl
 	pfx := map[string]string{"mem": "memdisk", "file": "filedisk"}[impl]
 	r.Count("histories_"+impl, 1)
+	r.Count("histories_"+impl+"_"+rec.Pkg, 1)
 	if rec.Race {
 		r.Count("histories_race_build", 1)
 	}
@@ -599,6 +638,15 @@ func (ck *c10checker) checkFile(rec *c10record, a uint64, evs []*c10event) {
 			r.Count("filedisk_reads_overlapping_a_write", 1)
 		} else {
 			r.Count("filedisk_reads_not_overlapping_any_write_checked", 1)
+			if e.Q {
+				r.Count("filedisk_quiescent_point_reads_judged", 1)
+			}
+			if len(e.Torn) > 0 {
+				// every write to a returned before this read began (or begins after it): the block must be
+				// one whole payload
+				r.Violate("filedisk-settled-read-is-no-written-block", fmt.Sprintf("file: %s overlaps no write to address %d, yet the block it returned is not the payload of any single write: it mixes several values", describeEvent(e), a),
+					ck.replayDetail(rec, a, evs, map[string]interface{}{"read": describeEvent(e)}))
+			}
 		}
 		for _, wd := range words {
 			var src *c10event
@@ -747,66 +795,115 @@ func (ck *c10checker) collectRaces(dir string) {
 // ---------------------------------------------------------------- driver
 
 func runC10(r *core.Run) (bool, string) {
-	r.SetRule("evaluations = client-boundary operations recorded and judged; distinct_nontrivial = distinct per-address sub-histories (implementation + order of call/return events with clients, operation kinds and stamps) that contain at least one pair of overlapping operations. " +
-		"Each history: 2–16 client goroutines, 20–60 operations each (Write 40 %, Read 25 %, ReadTo 27 %, Size 8 %), 70–99 % of them on 1–3 hot addresses of a 4–16 block disk; every written block carries one stamp (address, client, seq) in all 512 words. " +
-		"MemDisk: porcupine per address against a register (60 s), torn block = violation, -race child runs = race reports with a library frame are violations. " +
-		"FileDisk: reads overlapping no write to their address must not return an overwritten value; no block may contain a stamp of another address; tearing only counted")
+	r.SetRule("evaluations = client-boundary operations recorded and judged; distinct_nontrivial = distinct per-address sub-histories (implementation + order of call/return events with clients, operation kinds and values) that contain at least one pair of overlapping operations (plain layer) or of overlapping writes (shaped layer). " +
+		"Plain layer, each history: 2–16 client goroutines, 20–60 operations each (Write 40 %, Read 25 %, ReadTo 27 %, Size 8 %), 70–99 % of them on 1–3 hot addresses of a 4–16 block disk made by package disk or async_disk; every written block carries one stamp (address, client, seq) in all 512 words; after the clients have joined the main goroutine reads every block. " +
+		"Shaped layer (shaped_* keys), each history: 2–10 clients, 15–45 rounds on 1–2 hot addresses of a 1–12 block disk; a round = observation phase (clients read the hot addresses, nobody writes), spin barrier, burst (1–3 operations per client, 82 % writes), spin barrier; a written block is the block the writer last observed at the address with its stamp put into a region only — whole block, header, trailer, inside a middle sector, two sectors, or nowhere (payload equal to the observation); after the join the main goroutine reads every block. " +
+		"MemDisk: porcupine per address against a register (60 s; whole block contents are the values in the shaped layer), a block that is no single write's payload = violation, -race child runs = race reports with a library frame are violations. " +
+		"Both implementations: a read that overlaps no write to its address must return exactly the payload of a write that returned before it began and is not followed in real time by another such write (the zero block if there is none); no block may contain a stamp of another address. FileDisk reads that overlap a write: tearing only counted")
 	r.Assume("timestamps come from the process-wide monotonic clock (time.Since) taken by the calling goroutine before the call and after the return; equal timestamps are treated as overlapping")
-	r.Assume("FileDisk runs on the scratch filesystem of this sandbox (ext4 page cache); other filesystems are not observed")
-	r.Assume("schedules are those the Go runtime produced under GOMAXPROCS ∈ {1,2,4,16} with Gosched salting; they are sampled, not enumerated")
+	r.Assume("FileDisk runs on the scratch filesystem of this sandbox (ext4 page cache, where one pwrite of a block is atomic with respect to another); other filesystems are not observed")
+	r.Assume("schedules are those the Go runtime produced under GOMAXPROCS ∈ {1,2,3,4,8,16} with Gosched salting; they are sampled, not enumerated")
 	self, err := os.Executable()
 	if err != nil {
 		r.Inconclusive("no-self-executable")
 		return false, err.Error()
 	}
-	raceBin, rerr := r.BuildSelf("-race")
-	if rerr != nil {
-		r.Inconclusive("race-build-failed")
-		fmt.Fprintln(os.Stderr, rerr)
+	// development knob: VERIF_C10_LAYERS=shape (or plain,race,…) runs only the named layers; such a
+	// run is never a verdict (inconclusive)
+	layer := func(name string) bool {
+		v := os.Getenv("VERIF_C10_LAYERS")
+		return v == "" || strings.Contains(","+v+",", ","+name+",")
 	}
+	if os.Getenv("VERIF_C10_LAYERS") != "" {
+		r.Inconclusive("dev-knob-VERIF_C10_LAYERS")
+	}
+	// the -race build of this binary proceeds while the plain children run
+	var raceBin string
+	var rerr error
+	built := make(chan struct{})
+	go func() {
+		if layer("race") {
+			raceBin, rerr = r.BuildSelf("-race")
+		} else {
+			rerr = fmt.Errorf("race layer switched off")
+		}
+		close(built)
+	}()
 	nPlain := r.Pick(200, 10000)
 	nRace := r.Pick(200, 4000)
 	perChild := r.Pick(10, 50)
+	nShape := r.Pick(c10ShapeQuick, 16000)
+	if !layer("plain") {
+		nPlain = 0
+	}
+	if !layer("shape") {
+		nShape = 0
+	}
+	perShapeChild := r.Pick(50, 200)
 	raceDir := filepath.Join(r.Scratch, "race")
 	os.MkdirAll(raceDir, 0o755)
 	type job struct {
-		race         bool
+		kind         string // plain | race | shape
 		first, count int
 		gmp          int
 		id           int
 	}
-	var jobs []job
+	var plainJobs, raceJobs []job
 	gmps := []int{1, 2, 4, 16}
 	// history indices: plain histories use 0..nPlain-1, race histories nPlain..; a
-	// child runs `count` consecutive pairs (mem, file alternate by index parity)
+	// child runs `count` consecutive histories (mem/file alternate by index parity, the
+	// package by the next bit). Shaped histories are numbered separately.
 	id := 0
 	for first := 0; first < nPlain; first += perChild {
-		jobs = append(jobs, job{false, first, min(perChild, nPlain-first), gmps[id%4], id})
+		plainJobs = append(plainJobs, job{"plain", first, min(perChild, nPlain-first), gmps[id%4], id})
 		id++
 	}
-	if rerr == nil {
-		for first := nPlain; first < nPlain+nRace; first += perChild {
-			jobs = append(jobs, job{true, first, min(perChild, nPlain+nRace-first), gmps[id%4], id})
-			id++
+	for first := nPlain; first < nPlain+nRace; first += perChild {
+		raceJobs = append(raceJobs, job{"race", first, min(perChild, nPlain+nRace-first), gmps[id%4], id})
+		id++
+	}
+	shapeGmps := []int{2, 4, 8, 16, 3, 4, 2, 16, 8, 4, 2, 1}
+	if v, err := strconv.Atoi(os.Getenv("VERIF_C10_SHAPE_GMP")); err == nil && v > 0 {
+		shapeGmps = []int{v} // development knob
+		r.Inconclusive("dev-knob-VERIF_C10_SHAPE_GMP")
+	}
+	var shapeJobs []job
+	for first, k := 0, 0; first < nShape; first, k = first+perShapeChild, k+1 {
+		shapeJobs = append(shapeJobs, job{"shape", first, min(perShapeChild, nShape-first), shapeGmps[k%len(shapeGmps)], id})
+		id++
+	}
+	// interleave shaped and plain children
+	var jobs []job
+	for i := 0; i < len(plainJobs) || i < len(shapeJobs); i++ {
+		if i < len(shapeJobs) {
+			jobs = append(jobs, shapeJobs[i])
+		}
+		if i < len(plainJobs) {
+			jobs = append(jobs, plainJobs[i])
 		}
 	}
 	ck := &c10checker{r: r}
-	core.Parallel(len(jobs), 6, func(i int) {
-		j := jobs[i]
+	runJob := func(j job) {
 		bin := self
 		env := append(os.Environ(), fmt.Sprintf("GOMAXPROCS=%d", j.gmp))
-		if j.race {
+		if j.kind == "race" {
 			bin = raceBin
 			env = append(env, fmt.Sprintf("GORACE=halt_on_error=0 log_path=%s", filepath.Join(raceDir, fmt.Sprintf("job%d", j.id))))
 		}
 		dir := filepath.Join(r.Scratch, fmt.Sprintf("c10j%d", j.id))
 		out := filepath.Join(r.Scratch, fmt.Sprintf("c10j%d.jsonl", j.id))
-		res := core.Exec(r.Scratch, env, 5*time.Minute, "", bin, "child", "c10-client",
-			strconv.FormatInt(r.Seed, 10), strconv.Itoa(j.first), strconv.Itoa(j.count), "1", strconv.Itoa(b2i(j.race)), dir, out)
+		var res core.ExecResult
+		if j.kind == "shape" {
+			res = core.Exec(r.Scratch, env, 5*time.Minute, "", bin, "child", "c10-shape",
+				strconv.FormatInt(r.Seed, 10), strconv.Itoa(j.first), strconv.Itoa(j.count), "1", dir, out)
+		} else {
+			res = core.Exec(r.Scratch, env, 5*time.Minute, "", bin, "child", "c10-client",
+				strconv.FormatInt(r.Seed, 10), strconv.Itoa(j.first), strconv.Itoa(j.count), "1", strconv.Itoa(b2i(j.kind == "race")), dir, out)
+		}
 		r.Count("client_processes", 1)
 		if res.TimedOut {
 			r.Inconclusive("client-watchdog")
-		} else if res.Code != 0 && !(j.race && res.Code == 66) {
+		} else if res.Code != 0 && !(j.kind == "race" && res.Code == 66) {
 			// a fatal runtime error inside the library (unlock of unlocked lock, deadlock…) is a
 			// finding; anything else is a harness failure
 			if strings.Contains(res.Stderr, "fatal error:") && strings.Contains(res.Stderr, goosePrefix) {
@@ -815,10 +912,10 @@ func runC10(r *core.Run) (bool, string) {
 					msg = msg[:k]
 				}
 				r.Violate("disk-fatal-runtime-error", "a client process died with a Go runtime "+msg+" with library frames on the stack",
-					map[string]interface{}{"seed": r.Seed, "first_history": j.first, "count": j.count, "gomaxprocs": j.gmp, "race_build": j.race, "stderr_tail": lastLines(res.Stderr, 60)})
+					map[string]interface{}{"seed": r.Seed, "layer": j.kind, "first_history": j.first, "count": j.count, "gomaxprocs": j.gmp, "race_build": j.kind == "race", "stderr_tail": lastLines(res.Stderr, 60)})
 			} else {
 				r.Inconclusive("client-crashed")
-				fmt.Fprintf(os.Stderr, "c10 client job %d: exit %d: %s\n", j.id, res.Code, lastLines(res.Stderr, 10))
+				fmt.Fprintf(os.Stderr, "c10 %s job %d: exit %d: %s\n", j.kind, j.id, res.Code, lastLines(res.Stderr, 10))
 			}
 		}
 		f, err := os.Open(out)
@@ -827,8 +924,18 @@ func runC10(r *core.Run) (bool, string) {
 		}
 		defer f.Close()
 		sc := bufio.NewScanner(f)
-		sc.Buffer(make([]byte, 1<<20), 64<<20)
+		sc.Buffer(make([]byte, 1<<20), 256<<20)
 		for sc.Scan() {
+			if j.kind == "shape" {
+				var rec shRecord
+				if json.Unmarshal(sc.Bytes(), &rec) != nil {
+					r.Inconclusive("unparsable-history")
+					continue
+				}
+				r.Count("shaped_histories", 1)
+				ck.checkShaped(&rec)
+				continue
+			}
 			var rec c10record
 			if json.Unmarshal(sc.Bytes(), &rec) != nil {
 				r.Inconclusive("unparsable-history")
@@ -838,8 +945,15 @@ func runC10(r *core.Run) (bool, string) {
 			ck.checkRecord(&rec)
 		}
 		os.Remove(out)
-	})
-	if rerr == nil {
+		os.RemoveAll(dir)
+	}
+	core.Parallel(len(jobs), 6, func(i int) { runJob(jobs[i]) })
+	<-built
+	if rerr != nil {
+		r.Inconclusive("race-build-failed")
+		fmt.Fprintln(os.Stderr, rerr)
+	} else {
+		core.Parallel(len(raceJobs), 6, func(i int) { runJob(raceJobs[i]) })
 		ck.collectRaces(raceDir)
 	}
 	r.Set("race_build_available", rerr == nil)
@@ -856,5 +970,22 @@ func runC10(r *core.Run) (bool, string) {
 	if r.GetCount("filedisk_reads_not_overlapping_any_write_checked") < 100 {
 		return false, "fewer than 100 FileDisk reads were in a position to be judged for staleness"
 	}
+	for _, impl := range []string{"mem", "file"} {
+		// MemDisk writes last a few hundred nanoseconds, FileDisk writes a few microseconds
+		floor := map[string]int64{"mem": 50, "file": 150}[impl]
+		if n := r.GetCount("shaped_overlapping_write_pairs_differently_shaped_" + impl); n < floor {
+			return false, fmt.Sprintf("shaped layer, %s: only %d overlapping same-address write pairs with differently shaped payloads were observed (floor %d)", impl, n, floor)
+		}
+		if n := r.GetCount("shaped_settled_reads_judged_" + impl); n < c10ShapeFloorReads {
+			return false, fmt.Sprintf("shaped layer, %s: only %d reads overlapping no write were judged (floor %d)", impl, n, c10ShapeFloorReads)
+		}
+	}
 	return true, ""
 }
+
+// quick-tier volume and floors of the shaped layer (floors an order of magnitude
+// below what the unchanged tree yields)
+const (
+	c10ShapeQuick      = 1200
+	c10ShapeFloorReads = 10000
+)
